@@ -5,9 +5,16 @@
 # stores it and may forward it (the statement forbids storing/forwarding only "more than" max_hops away); the next
 # agent drops it.  "Set in the routing configuration": the limit an Agent built from a configuration enforces is
 # config.Routing.MaxHops (checked on real agent.New objects for limits 1, 2, 3, 16, 100, 255).
+# The whole range 1..255 of the setting is in scope: the path and the seen-by list are counted in one byte on the
+# wire, so with max_hops = 255 the agent at the limit would forward lists of 256 agents.  The model scales this bound
+# (ListMod = 3 standing for 256, max_hops = ListMod-1); on the real code a chain of 260 flooders with max_hops 255 is
+# run, a late joiner connects to the agent exactly at the limit (table replay), and the execution is validated by TLC
+# with the real ListMod = 256.  Beyond the limit is judged by the distance in the graph of links, not by the recorded
+# path (which is what gets corrupted).
 import vf, _flood as F
 
-DEVS = ["DevNoHopCheck"]
+DEVS = ["DevNoHopCheck", "DevPathCountWrap"]
+CHAIN_INVS = "HopLimit PathIsDistance MetricIsHops PathsSimple ChainsSimple ProcessedOnce ForwardedOnce CountFits DecodedIntact"
 WFILES = ["common/common_test.go.tmpl", "agent/flood_wiring_test.go"]
 
 
@@ -16,7 +23,10 @@ def cfgs(ctx):
     t3 = F.L(("a", "b"), ("b", "c"), ("a", "c"))
     out = [F.base("c15-limit3", F.A3, t3, initups=[l3, t3], exits=[["a"]], announcers=["a", "b"], hopsset=[1], dup=1),
            F.base("c15-within3", F.A3, l3, initups=[l3], exits=[["a"]], announcers=["a", "c"], hopsset=[2]),
-           F.base("c15-join3", F.A3, l3, initups=[l3[:1]], exits=[["a"]], announcers=["a"], hopsset=[1], conn=1)]
+           F.base("c15-join3", F.A3, l3, initups=[l3[:1]], exits=[["a"]], announcers=["a"], hopsset=[1], conn=1),
+           # the limit at the wire bound of the path / seen-by count: lists of ListMod agents cannot be written
+           F.base("c15-wire4", F.A4, F.L(("a", "b"), ("b", "c"), ("c", "d")), initups=[F.L(("a", "b"), ("b", "c"), ("c", "d")), F.L(("a", "b"), ("b", "c"))],
+                  exits=[["a"]], announcers=["a"], hopsset=[2], listmod=3, conn=1, dup=1, replay=False)]
     if not ctx.quick():
         l4 = F.L(("a", "b"), ("b", "c"), ("c", "d"))
         r4 = F.L(("a", "b"), ("b", "c"), ("c", "d"), ("a", "d"))
@@ -51,18 +61,36 @@ def run(ctx):
     caught = F.sensitivity(ctx, DEVS)
     rep = F.replay(ctx, runs)
     recs = wiring(ctx)
+
+    def chain_cfg(summ):
+        names = summ["names"]
+        n, h = summ["chain"], summ["maxhops"]
+        links = [[names[i], names[i + 1]] for i in range(n - 1)] + [sorted([names[min(h, n - 1)], names[n]])]
+        return dict(F.TRACE_CFG, agents=names, links=links, announcers=names)
+    chain = F.traces(ctx, "TestZZVFloodChain", {"ZZV_CHAIN": 260, "ZZV_CHAIN_HOPS": 255}, "c15chain", invs=CHAIN_INVS, tcfg=chain_cfg)
+    chains = [chain]
+    if not ctx.quick():
+        for n, h in ((258, 254), (40, 16), (300, 255)):
+            chains.append(F.traces(ctx, "TestZZVFloodChain", {"ZZV_CHAIN": n, "ZZV_CHAIN_HOPS": h}, "c15chain%d" % h, invs=CHAIN_INVS, tcfg=chain_cfg))
+    for ch in chains:
+        s = ch["summary"]
+        if s["holders"] < min(s["maxhops"], s["chain"] - 1):
+            raise vf.Infra("chain harness: only %d agents learned the route (limit %d)" % (s["holders"], s["maxhops"]))
     ntr, nops = (25, 50) if ctx.quick() else (1200, 100)
     tr = F.traces(ctx, "TestZZVFloodTrace", {"ZZV_TRACES": ntr, "ZZV_OPS": nops, "ZZV_HOPS": "small"}, "c15trace")
-    F.report(ctx, "C15", rep, [tr])
+    F.report(ctx, "C15", rep, [tr] + chains)
     st, trn = F.coverage(runs)
     ctx.evidence("model_checking",
                  assumptions=["bounded model: limits 1..%d on lines, triangles and rings longer than the limit; random schedules with "
                               "per-agent limits 1..3 on 5-6 agents" % (2 if ctx.quick() else 3),
                               "config -> flooder wiring observed on real Agent objects for limits 1, 2, 3, 16, 100, 255 "
-                              "(paths longer than 255 agents cannot be encoded)"],
-                 states=st, transitions=trn, traces_validated_against_impl=rep["paths"] + tr["summary"]["traces"],
+                              "(paths longer than 255 agents cannot be encoded)",
+                              "wire bound: model with ListMod = 3, max_hops = 2; real chain of 260 flooders with max_hops 255 + late joiner"],
+                 states=st, transitions=trn, traces_validated_against_impl=rep["paths"] + tr["summary"]["traces"] + len(chains),
                  exhaustive=True, replayed_paths=rep["paths"], replayed_steps=rep["steps"], replay_edges=rep["edges"],
                  replay_forks=rep["forks"], replay_mismatches=len(rep["mismatches"]),
                  flood_config_has_limit=rep["maxhops_field"], wiring_cases=len(recs),
+                 chains=[{k: c["summary"][k] for k in ("chain", "maxhops", "holders", "farthest", "joiner_learned", "events")} for c in chains],
+                 chain_traces_accepted=[c["v"]["accepted"] for c in chains],
                  trace_events=tr["summary"]["events"], trace_highwater=tr["v"]["hw"], trace_accepted=tr["v"]["accepted"],
                  deviations_caught=caught, samples=rep["samples"] + [{"wiring": recs[:4]}])
